@@ -50,6 +50,16 @@ type condCtx struct {
 }
 
 func enclosingConds(p *Program, f *FuncInfo, n ast.Node) []condCtx {
+	return condsAround(p, f, n, false)
+}
+
+// dominatingConds is enclosingConds plus the negations of earlier early-exit guards in the enclosing
+// statement lists (`if C { return }` before n means !C holds at n).
+func dominatingConds(p *Program, f *FuncInfo, n ast.Node) []condCtx {
+	return condsAround(p, f, n, true)
+}
+
+func condsAround(p *Program, f *FuncInfo, n ast.Node, early bool) []condCtx {
 	var out []condCtx
 	cur := n
 	for cur != nil && cur != ast.Node(f.Body()) {
@@ -69,6 +79,43 @@ func enclosingConds(p *Program, f *FuncInfo, n ast.Node) []condCtx {
 			}
 		case *ast.FuncLit:
 			return out
+		}
+		// early exits: an earlier `if C { ...; return/continue/break/panic }` without else in the same
+		// statement list means !C holds here (the guard written as an early return instead of nesting)
+		var list []ast.Stmt
+		switch x := par.(type) {
+		case *ast.BlockStmt:
+			list = x.List
+		case *ast.CaseClause:
+			list = x.Body
+		}
+		if !early {
+			list = nil
+		}
+		for _, st := range list {
+			if ast.Node(st) == cur {
+				break
+			}
+			ifs, ok := st.(*ast.IfStmt)
+			if !ok || ifs.Else != nil || ifs.Init != nil || len(ifs.Body.List) == 0 {
+				continue
+			}
+			exits := false
+			switch last := ifs.Body.List[len(ifs.Body.List)-1].(type) {
+			case *ast.ReturnStmt:
+				exits = true
+			case *ast.BranchStmt:
+				exits = last.Tok == token.CONTINUE || last.Tok == token.BREAK || last.Tok == token.GOTO
+			case *ast.ExprStmt:
+				if call, ok := last.X.(*ast.CallExpr); ok {
+					if id, ok := call.Fun.(*ast.Ident); ok && id.Name == "panic" {
+						exits = true
+					}
+				}
+			}
+			if exits {
+				out = append(out, condCtx{ifs.Cond, false})
+			}
 		}
 		cur = par
 	}
